@@ -144,6 +144,7 @@ def val_of(entry):
 # library models
 # ---------------------------------------------------------------------------------------------
 NBYTES = z3.Function("nbytes", sv.RealS, sv.IntS)
+ISMASKED = z3.Function("is_masked_array", sv.RealS, sv.BoolS)
 SHARE = z3.Function("may_share_memory", sv.RealS, sv.RealS, sv.BoolS)
 
 
@@ -232,9 +233,12 @@ def schema2(reg):
 
 
 def install2(ex):
-    def np_save(ex, path, args, kwargs, node):
+    def np_save(ex, path, args, kwargs, node, masked_ok=False):
         fn = ex.expect(args[0], sv.SStr, path, node)
         mag = ex.expect(args[1], sv.SPay, path, node)
+        if not masked_ok:
+            # assumed contract of np.save: a MaskedArray cannot be written (NotImplementedError)
+            ex.safe(path, "np.save-masked-array", Not(ISMASKED(mag.e)), node)
         ctxs = ex
         st = path.heap_get(ex, WORLD, "$fexists")
         ns = sv.SSet(lambda k, st=st, fn=fn: Or(k == fn.e, st.dom(k)), None, st.kwrap)
@@ -280,6 +284,20 @@ def install2(ex):
 
     ex.ext_models["pint.application_registry.Unit"] = unit_one
     ex.pure_ext.add("tools.UNITS.Unit")
+    def is_masked(ex, path, args, kwargs, node):
+        v = ex.expect(args[0], sv.SPay, path, node)
+        return sv.SBool(ISMASKED(v.e))
+
+    ex.ext_models["numpy.ma.isMaskedArray"] = is_masked
+    ex.pure_ext.add("np.ma.isMaskedArray")
+
+    def dump_hook(ex, base, attr, path, node):
+        if isinstance(base, sv.SPay) and attr == "dump":
+            # MaskedArray.dump(file): pickles data and mask; np.load(allow_pickle=True) restores the array
+            return sv.SPy("libfn", lambda ex2, p, a, k, n, base=base: np_save(ex2, p, [a[0], base], k, n, masked_ok=True))
+        return None
+
+    ex.hooks.setdefault("getattr", []).append(dump_hook)
     ex.ext_models["numpy.save"] = np_save
     ex.ext_models["numpy.load"] = np_load
     ex.ext_models["os.remove"] = os_remove
